@@ -13,45 +13,59 @@ def rel(name, archqual=None, version=None, archs=None, profiles=()):
 
 
 def rel_tokens(r, style="tight", sym=False):
-    sp = [ws("  ")] if style == "loose" else []                    # optional extra blanks inside brackets
-    opsp = [] if style == "tight" else [ws("  " if style == "loose" else " ")]   # between operator and version
-    sp1 = [ws()]                       # single space in canonical positions
+    """styles: tight (no optional blanks), canonical, loose (two blanks everywhere), tabs (a tab wherever a blank may
+    stand), wrapped (a line break + blank wherever a blank may stand inside the relation)"""
+    if style == "wrapped":
+        gap = lambda: [rt("NEWLINE"), ws(" ")]
+        sp, opsp, sp1, sep = gap(), gap(), gap(), gap
+    elif style == "tabs":
+        sp, opsp, sp1, sep = [ws("\t")], [ws("\t")], [ws("\t")], (lambda: [ws("\t")])
+    else:
+        sp = [ws("  ")] if style == "loose" else []                    # optional extra blanks inside brackets
+        opsp = [] if style == "tight" else [ws("  " if style == "loose" else " ")]   # between operator and version
+        sp1 = [ws()] if style != "tight" else []                       # single space in canonical positions
+        sep = lambda: [ws()]
     out = [ident(r["name"], sym)]
     if r["archqual"]:
         out += [rt("COLON"), ident(r["archqual"], sym)]
     if r["version"]:
         op, v = r["version"]
-        out += (sp1 if style != "tight" else []) + [rt("L_PARENS")] + sp + [rt(k) for k in OPS[op]] + opsp
+        out += list(sp1) + [rt("L_PARENS")] + list(sp) + [rt(k) for k in OPS[op]] + list(opsp)
         parts = v.split(":")
         for i, p in enumerate(parts):
             if i:
                 out.append(rt("COLON"))
             out.append(ident(p, sym))
-        out += [rt("R_PARENS")]
+        out += list(sp) + [rt("R_PARENS")]
     if r["archs"] is not None:
-        out += (sp1 if style != "tight" else []) + [rt("L_BRACKET")] + sp
+        out += list(sp1) + [rt("L_BRACKET")] + list(sp)
         for i, (neg, a) in enumerate(r["archs"]):
             if i:
-                out.append(ws())
+                out += sep()
             if neg:
                 out.append(rt("NOT"))
             out.append(ident(a, sym))
-        out += sp + [rt("R_BRACKET")]
+        out += list(sp) + [rt("R_BRACKET")]
     for g in r["profiles"]:
-        out += (sp1 if style != "tight" else []) + [rt("L_ANGLE")] + sp
+        out += list(sp1) + [rt("L_ANGLE")] + list(sp)
         for i, (neg, p) in enumerate(g):
             if i:
-                out.append(ws())
+                out += sep()
             if neg:
                 out.append(rt("NOT"))
             out.append(ident(p, sym))
-        out += sp + [rt("R_ANGLE")]
+        out += list(sp) + [rt("R_ANGLE")]
     return out
 
 
 def field_tokens(entries, style="tight", trailing_comma=False, substvars=(), sym=False):
     """entries: list of entries; entry = list of alternatives (rel dicts); [] = empty entry"""
     out = []
+    rstyle = style
+    if style == "wrapped":
+        style = "newlines"
+    if style == "tabs":
+        style = "canonical"
     if style == "newlines":
         out.append(ws(" "))
     first = True
@@ -82,7 +96,7 @@ def field_tokens(entries, style="tight", trailing_comma=False, substvars=(), sym
                     out += [rt("NEWLINE"), ws(" "), rt("PIPE"), ws(" ")]
                 else:
                     out += [ws(), rt("PIPE"), ws()]
-            out += rel_tokens(r, "canonical" if style == "newlines" else style, sym)
+            out += rel_tokens(r, rstyle if rstyle in ("wrapped", "tabs") else ("canonical" if style == "newlines" else style), sym)
     if trailing_comma:
         out.append(rt("COMMA"))
     return out
